@@ -146,7 +146,7 @@ def gen_tree(rng, prof=DEFAULT_PROFILE):
     return list(tree.values())
 
 
-MUT_KINDS = ['write', 'write', 'write', 'delete', 'delete', 'rmtree', 'mkdir', 'touch']
+MUT_KINDS = ['write', 'write', 'write', 'write', 'delete', 'delete', 'delete', 'rmtree', 'rmtree', 'mkdir', 'mkdir', 'touch', 'touch', 'todir']
 
 
 def gen_mut(rng, prof, tcounter, kinds=MUT_KINDS, paths=None):
@@ -380,7 +380,10 @@ def scen_reads(rng, modes=None, samemeta=False):
         _fn('f5', [_sb(1), _bf(out, 2, cmp_=c2), _sb(3)]),
     ]
     funcs[4] = _fn('rootfail', funcs[0]['stmts'] + [['raise', 99]])
-    tree = [[inp, 'file', 'i%d' % rng.randint(0, 9), 150]]
+    # half of the cases use present-day timestamps a few nanoseconds apart: mtime_ns must be compared exactly
+    # (a float of seconds cannot tell them apart)
+    base = EPOCH_NS if rng.random() < 0.5 else 0
+    tree = [[inp, 'file', 'i%d' % rng.randint(0, 9), base + 150]]
     steps = [_build()]
     kinds = ['write', 'touch', 'delete'] + (['samemeta', 'samemeta', 'touch'] if samemeta else [])
     used_samemeta = False
@@ -388,7 +391,8 @@ def scen_reads(rng, modes=None, samemeta=False):
         k = rng.choice(kinds)
         used_samemeta = used_samemeta or k == 'samemeta'
         # every external write/touch gets a fresh modification time: only `samemeta` keeps one
-        steps.append(['mut', k, rng.choice([inp, out]), 'm%d' % rng.randint(0, 9), 7000 + 10 * i + rng.randint(0, 9)])
+        steps.append(['mut', k, rng.choice([inp, out]), 'm%d' % rng.randint(0, 9),
+                      base + (151 + 3 * i + rng.randint(0, 2) if base else 7000 + 10 * i + rng.randint(0, 9))])
         steps.append(_build(root=rng.choice([0, 0, 0, 4])))
     steps.append(_build())
     c = {'tree': tree, 'funcs': funcs, 'steps': steps}
@@ -399,11 +403,17 @@ def scen_reads(rng, modes=None, samemeta=False):
     return c
 
 
+EPOCH_NS = 1790000000 * 10 ** 9      # a modification time of today, in nanoseconds
+
+
 ARG_PAIRS = [  # (first build, second build, same JSON value?)
     (1, 1.0, True), (1, True, False), (0, False, False), ([1, 2], (1, 2), True), ([1, 2], [2, 1], False),
     ({'a': 1, 'b': 2}, {'b': 2, 'a': 1}, True), ({1: 'x'}, {'1': 'x'}, True), ({'a': 1}, {'a': 1, 'b': None}, False),
     (None, 0, False), ('1', 1, False), (2 ** 70, float(2 ** 70), True), (-0.0, 0, True), ([], {}, False), ([[]], [()], True),
     ({'k': True}, {'k': 1}, False), ({'k': [1.0]}, {'k': (1,)}, True), ('a', 'a', True), ([0], [], False),
+    # same number of keys, different keys, null values (a `.get(key)` comparison would call these equal)
+    ({'a': None}, {'b': 'x'}, False), ({'a': None}, {'b': None}, False), ({'a': None, 'c': 1}, {'b': 3, 'c': 1}, False),
+    ({'': None}, {'0': False}, False), ({'b': 'x'}, {'a': None}, False), ([{'a': None}], [{'b': 2}], False),
 ]
 
 
@@ -568,7 +578,40 @@ def scen_sibling_failure(rng):
     return {'tree': [], 'funcs': funcs, 'steps': steps}
 
 
-SCENARIOS = [scen_nested_failure, scen_swap, scen_stale_dir, scen_dups, scen_versions, scen_reads, scen_identity, scen_foreign_swap, scen_sibling_failure]
+def scen_todir(rng):
+    """the user replaces an output file (or the parent directory of one) by something of the other kind - an
+    empty directory, a directory with a file in it, a regular file - and then builds again or cleans"""
+    d = rng.choice(NAMES)
+    out1 = '%s/%s' % (d, rng.choice(NAMES))
+    out2 = '%s/sub/%s' % (d, rng.choice(NAMES))
+    funcs = [
+        _fn('f0', [_bf(out1, 1, catch=True, cmp_=rng.choice('MH')), _bf(out2, 1, arg=1, catch=True)] + _probe(rng, [d, out1, out2, d + '/sub', ''], 3)),
+        _fn('f1', [['w', None]]),
+    ]
+    funcs.append(_fn('rootfail', funcs[0]['stmts'] + [['raise', 99]]))
+    steps = [_build()]
+    how = rng.choice(['empty_dir', 'dir_with_file', 'parent_to_file', 'both'])
+    if how in ('empty_dir', 'both'):
+        steps.append(['mut', 'todir', out1, None, None])
+    if how == 'dir_with_file':
+        steps.append(['mut', 'todir', out1, None, None])
+        steps.append(['mut', 'write', out1 + '/inside', 'u', 6200])
+    if how in ('parent_to_file', 'both'):
+        steps.append(['mut', 'rmtree', d + '/sub', None, None])
+        steps.append(['mut', 'write', d + '/sub', 'now a file', 6201])
+    tail = rng.choice(['clean', 'build', 'fail', 'build_clean'])
+    if tail == 'clean':
+        steps.append(['clean', rng.choice(['n', None])])
+    elif tail == 'build':
+        steps += [_build(), _build()]
+    elif tail == 'fail':
+        steps += [_build(root=2), _build()]
+    else:
+        steps += [_build(), ['clean', 'n']]
+    return {'tree': [], 'funcs': funcs, 'steps': steps}
+
+
+SCENARIOS = [scen_nested_failure, scen_swap, scen_stale_dir, scen_dups, scen_versions, scen_reads, scen_identity, scen_foreign_swap, scen_sibling_failure, scen_todir]
 
 
 def gen_scenario_cases(seed, per_family, dirsize=4096, families=SCENARIOS):
